@@ -222,9 +222,41 @@ CLAIMED = {
         design='DESIGN.md §6 C01',
         technique='Lean 4 proof (loop invariants for LU and Cholesky, P.A = L.U, L.L^T = A, solve correctness and totality via Mathlib Matrix, standard-model rounding bounds) + bit-exact correspondence + exact residual oracle'),
     "C03": dict(
-        text=("Kernel-checked theorems: inverse-CDF laws over R for Exponential, Pareto, Gumbel, Uniform (F(sample u) = u or 1-u for every u in (0,1)) and Bernoulli; exact characterisations of the Poisson multiplication method (returns k iff the running product of uniforms first drops to e^-lambda at k) and of binomial inversion (walks C(n,x)p^x q^(n-x), returns the generalised inverse CDF, result <= n, for every n); textbook compositions (ChiSquared = Gamma(k/2, 1/2), Beta = X/(X+Y) in draw order incl. the underflow branch, T formula, MVN = mu + L z via the C05 product theorem, binomial flip, regime routing, Gamma boost below shape 1); support and shape (Pareto >= x_m, Exponential >= 0, Uniform in [a,b], Gamma > 0, counts >= 0, sample_n length and consecutive draws, sample_matrix / MVN shapes); the three 128-entry Ziggurat tables regenerated from the source are exactly consistent (K, Y, W, R relations in rational arithmetic), so editing one entry breaks a proof. SUPPORT of the rejection samplers (Props/C03Support): Poisson draws (multiplication and PTRS) are naturals for every rate, Binomial draws (inversion, BTPE, flip) are naturals <= n for every n and p, Beta in [0,1], Ziggurat accepting branches return mu +- x sigma with real x >= 0. PARTIAL: the laws of the rejection samplers (Ziggurat, Marsaglia-Tsang and hence beta/chi-squared/t, PTRS, BTPE), loop termination and RNG quality are not provable here; they are decided by the bit-exact tie of 2000-draw streams + final RNG state for every distribution x regime x seed and by the property's own DKW criterion (alpha = 1e-12, n = 2e5 quick / 4e6 thorough) against scipy CDFs. Two open findings are listed in known_findings.txt."
-              " SOURCE TIE: the sample() bodies of the exponential, Gumbel, Pareto and uniform samplers are regenerated from the Rust text on every run and proved equal to the model as functions of the draw."
-              " The Poisson / Binomial routing conditions and the T / Beta compositions are regenerated from the Rust text and proved equal to the model; the DKW summary lines over long sample streams are reproduced byte for byte by the model driver (no implementation-only request remains)."),
+        text=("proof (partial). MODEL: lean/Compute/Model/Samplers.lean is a hand-written executable model of every sample / sample_n / sample_matrix route of "
+              "src/distributions (Ziggurat normal with the three 128-entry tables, Marsaglia-Tsang gamma with the shape < 1 boost, beta, chi-squared, t, Poisson "
+              "multiplication method and PTRS, binomial inversion and BTPE with the flip, exponential, Gumbel, Pareto, uniform, discrete uniform, Bernoulli, MVN), "
+              "each a function of the parameters and the alea generator state, with fuel for every loop. PROVED over the reals about that same model (kernel-checked, "
+              "axioms propext / Classical.choice / Quot.sound): (1) inverse-cdf laws for Exponential, Pareto, Gumbel for every parameter and EVERY generator state "
+              "for which the call returns: the redraw loop (repair F53) hands the formula the first non-zero uniform u in (0,1) of the stream, F(sample) = u or 1 - "
+              "u, Exponential > 0, Pareto >= x_m, and the loop terminates at the first non-zero uniform; Uniform: F(sample) = u and sample in [a,b]; Bernoulli: "
+              "sample = 1 iff u < p; DiscreteUniform: an integer in [lower, upper]. (2) Poisson multiplication method: returns k iff the first k partial products of "
+              "the uniforms exceed exp(-lambda) and the (k+1)-th does not, and it TERMINATES for every rate and every generator state; binomial inversion: walks the "
+              "exact binomial mass function, returns the generalised inverse of the binomial cdf at u, the result is <= n, and it TERMINATES within n + 1 iterations "
+              "for every n, 0 < p < 1 and every state. (3) PARTIAL CORRECTNESS ONLY (theorem names end in _partial; they speak about every call that returns; "
+              "termination of the rejection loops is not proved): Gamma > 0 for every shape (after repairs F20, F54), chi-squared > 0, Beta in [0,1] including the "
+              "underflow branch, Poisson PTRS and binomial BTPE return integers in range, Student t divides by a positive square root, Ziggurat accepting branches "
+              "return mu +- x sigma with x >= 0; the gamma boost Gamma(a) = U^(1/a) Gamma(a+1) with U the first non-zero uniform; MVN: a returned draw is mu + L z "
+              "with z the dim normal draws, and MVN::new stores a well-formed dim x dim factor with L L^T = Sigma for exactly symmetric Sigma (from the C01 Cholesky "
+              "theorem). Each of these conditional theorems has a kernel-evaluated witness on a concrete generator state (Props/C03Witness: Normal, Gamma shape >= 1 "
+              "and < 1, chi-squared 1 and 4, t, Beta, MVN dimension 2), so no hypothesis is vacuous. (4) sample_n returns exactly n consecutive draws of the stream; "
+              "sample_matrix and MVN sample_n shapes. (5) The Ziggurat tables are the doubles of the source and are internally consistent with explicit tolerances: "
+              "K[i] = floor(2^24 W[i-1] / W[i]) exactly, equal layer areas to a relative 1e-9, 2^24 W[126] = R to 1e-9, Y strictly decreasing; an edit of a table "
+              "entry beyond these tolerances breaks a proof. Unfolding-level facts (chi-squared is Gamma(k/2, 1/2), Beta ratio, t formula, Poisson / binomial "
+              "routing, flip) are rfl-level pins of the model, not results. NOT PROVED: the probability laws of the rejection samplers (Ziggurat, Marsaglia-Tsang and "
+              "hence beta / chi-squared / t, PTRS, BTPE) and therefore that MVN draws have covariance Sigma in distribution; termination of those loops; that Y[i] = "
+              "exp(-x^2/2); uniformity and independence of wyrand; floating-point rounding. These rest on TIE + SEARCH: every generated request is run through the "
+              "real crate and through the model at Float and compared bit for bit including the final generator state (quick: about 2060 requests, 4.9e7 draws; "
+              "thorough: about 7800 requests, 2.2e9 draws): the first 2000 draws of every stream for every distribution x regime x seed, bulk routes at 32767..65537, "
+              "sample_matrix, MVN sample_n and repeated sample, objects reached through setters / update / Default / Clone, exact special values and +-1 ulp bands "
+              "around every branch constant, the generator states whose uniform is exactly 0 for every distribution, and the order-statistic summaries of the long "
+              "streams; the DKW criterion (band sqrt(ln(2/alpha)/(2n)), alpha = 1e-12, false-alarm probability <= 1e-12 per case) is evaluated on the implementation "
+              "streams against scipy.stats cdfs with n = 2e5 / 1e5 (quick) and 4e6 for the regime grid, 1e6 for histories, construction routes, special values and "
+              "MVN, 32767..65537 for the bulk boundaries, 5e4 for corpus witnesses (thorough); the statistic is a lower bound of the sup-distance from 2000 (quick) / "
+              "8000 (thorough) order statistics or the exact histogram, so it can miss at most 1/K of distance. A source-level tie exists only for Uniform::sample, "
+              "the post-loop formulas of Exponential / Gumbel / Pareto (stale since F53 until the translator handles the while loop), the Poisson / binomial routing "
+              "predicates and the t / beta compositions; wyrand, f64(), Lemire, Ziggurat, Marsaglia-Tsang, PTRS, BTPE, Bernoulli, MVN and the bulk helpers are tied "
+              "at run time only. Defects found and repaired through this property: F04, F20, F22, F41, F43-F46, F53, F54; open findings: du:panic:range>=2^63 "
+              "(dependency alea), beta:dkw:tiny-shapes, t:panic:dof-underflow."),
         design='DESIGN.md §6 C03',
         technique='Lean 4 proof (inverse-CDF algebra over R, loop characterisations, exact table arithmetic) + bit-exact stream correspondence + DKW search'),
     "C09": dict(
@@ -393,14 +425,14 @@ CLAIMED = {
               "idempotent rounding and representable inputs; dot within gamma_n sum|x_i y_i| for idempotent rounding; prod within gamma_n relative; norm within "
               "gamma_(n/2+2) relative and inf_norm within gamma_ncols relative (sqrt with relative error <= u); logsumexp / logmeanexp with an explicit bound in u, "
               "the libm error and the spread max - min under a relative-error model of exp, which for f64 applies when max - min <= 700 (beyond about 745 the "
-              "smallest shifted exponential underflows; f64_logsumexp_note, n <= 10000); these provisos are hypotheses of the theorems, and the per-run oracle checks "
-              "the same worst-case bounds against exact rational / 40-digit references on inputs inside them. Tie: the model at Float is compared bit for bit with "
-              "the Rust code on every request (none is implementation-only: asinh / acosh / atanh are spelled with the formulas of Rust std over ln_1p, hypot, sqrt, "
-              "ln; cbrt is the correctly rounded cube root computed exactly; measured identical on 1.2e6 and 1e7 arguments and re-swept every run) - all lengths "
-              "0..40 and random lengths to 1e4 for each of the 11 operator forms of Vector and of Matrix, negation, 29 maps, powi / powf with every special exponent, "
-              "special arguments, threshold bands of exp for the log-domain reductions, panics on length / shape mismatch, zero-sized matrices; exact element-wise "
-              "oracle against the scalar f64 method at every position. The empty slice: logsumexp of no element is f64::NEG_INFINITY (the guard of the repaired "
-              "function, F55; theorem logsumexpE_nil, and the oracle demands it on every run); logmeanexp of no element is undefined and not judged; inputs "
+              "smallest shifted exponential underflows; stdmodel_logsumexp_note, n <= 10000); these provisos are hypotheses of the theorems, and the per-run oracle "
+              "checks the same worst-case bounds against exact rational / 40-digit references on inputs inside them. Tie: the model at Float is compared bit for bit "
+              "with the Rust code on every request (none is implementation-only: asinh / acosh / atanh are spelled with the formulas of Rust std over ln_1p, hypot, "
+              "sqrt, ln; cbrt is the correctly rounded cube root computed exactly; measured identical on 1.2e6 and 1e7 arguments and re-swept every run) - all "
+              "lengths 0..40 and random lengths to 1e4 for each of the 11 operator forms of Vector and of Matrix, negation, 29 maps, powi / powf with every special "
+              "exponent, special arguments, threshold bands of exp for the log-domain reductions, panics on length / shape mismatch, zero-sized matrices; exact "
+              "element-wise oracle against the scalar f64 method at every position. The empty slice: logsumexp of no element is f64::NEG_INFINITY (the guard of the "
+              "repaired function, F55; theorem logsumexpE_nil, and the oracle demands it on every run); logmeanexp of no element is undefined and not judged; inputs "
               "containing +inf or only -inf return NaN and are outside the stated domain. Operands unchanged and negation are definitional in the (pure) model and "
               "observed by the tie (borrowed operands are echoed and compared)."),
         design="DESIGN.md §6 C04",
